@@ -11,6 +11,7 @@ import collections
 import hashlib
 import importlib
 import json
+import pickle
 import multiprocessing as mp
 import os
 import signal
@@ -76,7 +77,7 @@ def _structural_shrink(check, case, tag, detail, case_timeout, budget):
     found = {"detail": detail}
 
     def fails(c):
-        signal.setitimer(signal.ITIMER_REAL, case_timeout)
+        signal.setitimer(signal.ITIMER_REAL, case_timeout, 3.0)
         try:
             res = check.check_case(c)
         except Hang:
@@ -137,7 +138,7 @@ def run_shard(args) -> dict:
 
     def prop_fn(case):
         out["evaluations"] += 1
-        signal.setitimer(signal.ITIMER_REAL, case_timeout)
+        signal.setitimer(signal.ITIMER_REAL, case_timeout, 3.0)
         try:
             res = check.check_case(case)
         except Hang:
@@ -211,6 +212,63 @@ def run_shard(args) -> dict:
     return out
 
 
+def _shard_entry(task, path):
+    r = run_shard(task)
+    with open(path + ".tmp", "wb") as f:
+        pickle.dump(r, f)
+    os.replace(path + ".tmp", path)
+
+
+def run_tasks(tasks, jobs, shard_budget_s):
+    """Runs every shard in a process of its own (at most `jobs` at a time) and collects the results
+    from files. No queue, lock or pipe is shared between the shards: a shard that dies (or is
+    killed after `shard_budget_s`) costs its own result and a harness-error line - it cannot wedge
+    the others, which a multiprocessing.Pool does when a worker dies holding the task-queue lock."""
+    import shutil
+    import tempfile
+
+    ctx = mp.get_context("fork")
+    tmpdir = tempfile.mkdtemp(prefix="xsm-run-", dir=os.environ.get("TMPDIR", "/var/tmp"))
+    pending = list(enumerate(tasks))
+    running = {}
+    results, errors = [], []
+    try:
+        while pending or running:
+            while pending and len(running) < jobs:
+                i, task = pending.pop(0)
+                path = os.path.join(tmpdir, f"shard{i}.pkl")
+                p = ctx.Process(target=_shard_entry, args=(task, path))
+                p.start()
+                running[i] = (p, path, task, time.time())
+            time.sleep(0.05)
+            for i, (p, path, task, t_start) in list(running.items()):
+                if p.is_alive():
+                    if time.time() - t_start > shard_budget_s:
+                        p.kill()
+                        p.join(5)
+                        del running[i]
+                        errors.append(f"shard {task[6]}#{task[3]} exceeded its wall budget of {shard_budget_s}s and was killed (inconclusive)")
+                    continue
+                p.join()
+                del running[i]
+                if os.path.exists(path):
+                    with open(path, "rb") as f:
+                        r = pickle.load(f)
+                    results.append(r)
+                    if r["error"]:
+                        errors.append(r["error"])
+                else:
+                    errors.append(f"shard {task[6]}#{task[3]} exited with code {p.exitcode} without a result")
+    finally:
+        for p, *_ in running.values():
+            try:
+                p.kill()
+            except Exception:  # noqa
+                pass
+        shutil.rmtree(tmpdir, ignore_errors=True)
+    return results, errors
+
+
 # ----------------------------------------------------------------------------- main
 def write_replay(prop: str, tag: str, case: Any, detail: Any) -> str:
     d = os.path.join(REPLAY_DIR, prop)
@@ -233,14 +291,7 @@ def run_property(prop: str, tier: str, seed: int, jobs: int = 16) -> int:
         per = max(1, camp["examples"] // shards)
         for i in range(shards):
             tasks.append((prop, tier, seed, i, shards, per, camp["name"]))
-    results = []
-    harness_errors = []
-    ctx = mp.get_context("fork")
-    with ctx.Pool(min(jobs, len(tasks)), maxtasksperchild=1) as pool:
-        for r in pool.imap_unordered(run_shard, tasks):
-            results.append(r)
-            if r["error"]:
-                harness_errors.append(r["error"])
+    results, harness_errors = run_tasks(tasks, jobs, shard_budget_s=1800 if tier == "quick" else 6 * 3600)
     # ---- optional exhaustive / non-hypothesis part implemented by the check itself
     extra = None
     if hasattr(check, "extra_run"):
